@@ -21,7 +21,7 @@ static const char *const KIND_NAMES[] = {
     "ctor_overloads", "set_overloads", "assign_overloads", "from_overloads", "accessors", "from_num_overloads", "to_num_overloads", "compare_overloads",
     "find_overloads", "edge_overloads", "replace_overloads", "split_overloads", "plus_overloads", "plus_assign_overloads", "stream_overloads",
     "stream_move_erase", "free_conv_wchar", "free_conv_latin1", "free_conv_char8", "format_chars", "format_std_strings", "format_views_ints",
-    "iostream_narrow", "iostream_wide", "stdio_memstream", "buffer_overloads", "custom_writer", "validation_modes", "wide_buffers", "nested_formatter"};
+    "iostream_narrow", "iostream_wide", "stdio_memstream", "buffer_overloads", "custom_writer", "validation_modes", "wide_buffers", "nested_formatter", "record_buffer"};
 const int NKINDS = sizeof KIND_NAMES / sizeof KIND_NAMES[0];
 const char *bop_name(int k) { return (k >= 0 && k < NKINDS) ? KIND_NAMES[k] : "?"; }
 int bop_count() { return NKINDS; }
